@@ -136,8 +136,8 @@ def concrete(x):
 
 
 class Event:
-    __slots__ = ("id", "tid", "parent", "guard", "kind", "obj", "path", "sort", "rval", "wval", "wguard", "atomic",
-                 "order", "forder", "label", "assume", "depth", "site")
+    __slots__ = ("id", "tid", "parents", "guard", "kind", "obj", "path", "sort", "rval", "wval", "wguard", "atomic",
+                 "order", "forder", "label", "assume", "depth", "site", "fn", "bb")
 
     def __init__(self, **kw):
         for k in self.__slots__:
@@ -172,7 +172,7 @@ class Leaf:
         self.status = status      # 'done' | 'unwound' | 'cut' | 'panic'
         self.ret = ret
         self.detail = detail
-        self.last_event = ctx.last
+        self.last_events = list(ctx.last)
         self.obs = list(ctx.obs)
         self.trace = list(ctx.trace)
 
@@ -186,17 +186,19 @@ class Ctx:
         self.tid = tid
         self.frames = []
         self.pc = []
-        self.last = None       # last event (program order parent)
+        self.last = []         # program-order parents of the next event (several after a merge)
         self.obs = []          # observations: (label, guard, payload dict)
         self.trace = []        # (function, bb) trail for counterexample printing
         self.nfid = 0
         self.depth = 0
+        self.resumed = False
+        self.just_returned = False
 
     def clone(self):
         c = Ctx(self.eng, self.tid)
         c.frames = [f.clone() for f in self.frames]
         c.pc = list(self.pc)
-        c.last = self.last
+        c.last = list(self.last)
         c.obs = list(self.obs)
         c.trace = list(self.trace)
         c.nfid = self.nfid
@@ -208,9 +210,11 @@ class Ctx:
 
     # -------------------------------------------------------------- events
     def _event(self, **kw):
-        e = Event(id=len(self.eng.events), tid=self.tid, parent=self.last, guard=self.guard(), **kw)
+        fr = self.frames[-1] if self.frames else None
+        e = Event(id=len(self.eng.events), tid=self.tid, parents=list(self.last), guard=self.guard(),
+                  fn=(fr.body.name if fr else None), bb=(fr.bb if fr else None), **kw)
         self.eng.events.append(e)
-        self.last = e
+        self.last = [e]
         return e
 
     def mem_read(self, obj, path, sort, atomic=True, order="SeqCst", label=""):
@@ -228,6 +232,10 @@ class Ctx:
         if assume_of_old is not None:
             e.assume = assume_of_old(v)
         return v
+
+    def mark_site(self):
+        for e in self.last:
+            e.site = True
 
     def observe(self, label, **payload):
         e = self._event(kind="O", obj=None, path=(), sort=None, label=label)
@@ -256,6 +264,10 @@ class Engine:
         self.max_paths = max_paths
         self.max_depth = max_depth
         self.float_mode = "uf"
+        self.const_override = {}
+        self.loop_bounds = {}
+        self.merge_fns = []
+        self.merging = True
         self.solver = z3.Solver()
         self.functions_executed = set()
         self.callees_modelled = set()
@@ -296,22 +308,60 @@ class Engine:
         if setup:
             setup(ctx)
         self.push_frame(ctx, body, args, None)
+        leaves = self.drive(ctx, 0)
+        self.leaves[tid] = leaves
+        return leaves
+
+    def loc_sig(self, ctx):
+        return tuple((fr.body.name, fr.bb, fr.visits.get(fr.bb, 0), vrepr(fr.ret_to)) for fr in ctx.frames)
+
+    def loc_order(self, ctx):
+        key = []
+        for fr in ctx.frames:
+            key.append((fr.visits.get(fr.bb, 0), cfg_info(fr.body)[1].get(fr.bb, 10 ** 6)))
+        return tuple(key)
+
+    def drive(self, ctx, until_depth):
+        """run one context to completion; contexts are parked at CFG joins / call returns and merged there (values
+        that differ become ite terms), so that an access site yields one event per loop unrolling, not one per path.
+        -> [Leaf] (all statuses)"""
         leaves = []
         stack = [ctx]
-        while stack:
+        parked = []
+        while stack or parked:
+            if not stack:
+                groups = {}
+                for c in parked:
+                    groups.setdefault(self.loc_sig(c), []).append(c)
+                first = min(groups, key=lambda k: self.loc_order(groups[k][0]))
+                grp = groups.pop(first)
+                parked = [c for g in groups.values() for c in g]
+                merged = []
+                for c in grp:
+                    done = False
+                    for m in merged:
+                        try:
+                            merge_two(self, m, c)
+                            done = True
+                            break
+                        except MergeFail:
+                            continue
+                    if not done:
+                        merged.append(c)
+                for m in merged:
+                    m.resumed = True
+                    stack.append(m)
             c = stack.pop()
-            try:
-                out = self.run(c)
-            except Unsupported:
-                raise
+            out = self.run(c, until_depth=until_depth)
             for kind, x in out:
                 if kind == "leaf":
                     leaves.append(x)
+                elif kind == "park":
+                    parked.append(x)
                 else:
                     stack.append(x)
-            if len(leaves) + len(stack) > self.max_paths:
-                raise Unsupported(f"path explosion in thread {name}: > {self.max_paths} paths")
-        self.leaves[tid] = leaves
+            if len(leaves) + len(stack) + len(parked) > self.max_paths:
+                raise Unsupported(f"path explosion: > {self.max_paths} paths")
         return leaves
 
     def run_script(self, tid, name, script):
@@ -341,18 +391,16 @@ class Engine:
                 body, args = req[1], req[2]
                 base = len(ctx.frames)
                 self.push_frame(ctx, body, args, None)
-                stack = [ctx]
-                while stack:
-                    c = stack.pop()
-                    out = self.run(c, until_depth=base)
-                    for k2, x in out:
-                        if k2 == "leaf":
-                            if x.status == "done":
-                                work.append((x.ctx, replay + [x.ret]))
-                            else:
-                                leaves.append(x)
-                        else:
-                            stack.append(x)
+                done = {}
+                for x in self.drive(ctx, base):
+                    if x.status == "done":
+                        done.setdefault(vrepr(x.ret), []).append(x)
+                    else:
+                        leaves.append(x)
+                # merge the paths through this call whose results are identical: the continuation is shared
+                for grp in done.values():
+                    m = merge_ctxs([x.ctx for x in grp])
+                    work.append((m, replay + [grp[0].ret]))
             elif kind == "branch":
                 cond = req[1]
                 for val, c in ((True, cond), (False, z3.Not(cond))):
@@ -401,8 +449,16 @@ class Engine:
             f = ctx.frames[-1]
             body = f.body
             key = f.bb
+            if self.merging and not ctx.resumed and (ctx.just_returned or key in cfg_info(body)[0]):
+                return [("park", ctx)]
+            ctx.resumed = False
+            ctx.just_returned = False
             f.visits[key] = f.visits.get(key, 0) + 1
-            if f.visits[key] > self.loop_bound + 1:
+            bound = self.loop_bound
+            for pat, n in self.loop_bounds.items():
+                if re.search(pat, body.name):
+                    bound = n
+            if f.visits[key] > bound + 1:
                 is_await = any(re.search(p, body.name) for p in self.await_fns)
                 lf = Leaf(ctx, "cut" if is_await else "unwound", detail=f"{body.name} bb{key}")
                 return [("leaf", lf)]
@@ -427,6 +483,7 @@ class Engine:
                 if tgt is None:
                     raise Unsupported("return into diverging call")
                 caller.bb = tgt
+                ctx.just_returned = True
             elif k == "switch":
                 v = self.eval_operand(ctx, f, term[1])
                 alts = self.switch_alts(v, term[2], term[3])
@@ -797,7 +854,10 @@ class Engine:
             if t.startswith("{closure@"):
                 return Closure(t, {})
             return FnItem(t)
-        # named constant of the crate
+        # named constant of the crate (scenario may override, e.g. a smaller block size)
+        last = strip_generics(c).split("::")[-1]
+        if last in self.const_override:
+            return self.const_override[last]
         b = self.prog.const_value(c)
         if b is not None:
             if b.const_value is not None:
@@ -1189,6 +1249,328 @@ def pointee_type(ty):
     if m:
         return split_top(m.group(1))[0]
     return None
+
+
+def _place_root(p):
+    while p[0] != "local":
+        p = p[1]
+    return p[1]
+
+
+def _place_index_locals(p, acc):
+    while p[0] != "local":
+        if p[0] == "index":
+            acc.add(p[2][1])
+        p = p[1]
+
+
+def _op_uses(op, acc):
+    if op[0] in ("copy", "move"):
+        acc.add(_place_root(op[1]))
+        _place_index_locals(op[1], acc)
+
+
+def _rv_uses(rv, acc):
+    k = rv[0]
+    if k == "use":
+        _op_uses(rv[1], acc)
+    elif k in ("ref", "rawptr"):
+        acc.add(_place_root(rv[2]))
+        _place_index_locals(rv[2], acc)
+    elif k == "binop":
+        _op_uses(rv[2], acc)
+        _op_uses(rv[3], acc)
+    elif k in ("unop", "cast", "shallow_init_box"):
+        _op_uses(rv[2] if k == "unop" else rv[1], acc)
+    elif k in ("discriminant", "len"):
+        acc.add(_place_root(rv[1]))
+    elif k in ("tuple", "array"):
+        for o in rv[1]:
+            _op_uses(o, acc)
+    elif k == "repeat":
+        _op_uses(rv[1], acc)
+    elif k in ("closure", "adt"):
+        for _, o in rv[2]:
+            _op_uses(o, acc)
+
+
+def liveness(body):
+    """live-in sets per basic block (locals that may be read before being fully overwritten)"""
+    if getattr(body, "_live", None) is not None:
+        return body._live
+    use, dfn, succ = {}, {}, {}
+    for bb, (stmts, term) in body.blocks.items():
+        u, d = set(), set()
+
+        def rd(x):
+            if x not in d:
+                u.add(x)
+        for st in stmts:
+            if st[0] == "assign":
+                acc = set()
+                _rv_uses(st[2], acc)
+                for x in acc:
+                    rd(x)
+                if st[1][0] == "local":
+                    d.add(st[1][1])
+                else:
+                    rd(_place_root(st[1]))
+                    a2 = set()
+                    _place_index_locals(st[1], a2)
+                    for x in a2:
+                        rd(x)
+            elif st[0] == "setdiscr":
+                rd(_place_root(st[1]))
+        t = term
+        nxt = []
+        if t[0] == "goto":
+            nxt = [t[1]]
+        elif t[0] == "switch":
+            acc = set()
+            _op_uses(t[1], acc)
+            for x in acc:
+                rd(x)
+            nxt = [b for _, b in t[2]] + ([t[3]] if t[3] is not None else [])
+        elif t[0] == "assert":
+            acc = set()
+            _op_uses(t[1], acc)
+            for x in acc:
+                rd(x)
+            nxt = [t[4]]
+        elif t[0] == "drop":
+            rd(_place_root(t[1]))
+            nxt = [t[2]]
+        elif t[0] == "call":
+            acc = set()
+            for a in t[3]:
+                _op_uses(a, acc)
+            if t[2][0] == "indirect":
+                _op_uses(t[2][1], acc)
+            for x in acc:
+                rd(x)
+            if t[1] is not None:
+                if t[1][0] == "local":
+                    d.add(t[1][1])
+                else:
+                    rd(_place_root(t[1]))
+            nxt = [t[4]] if t[4] is not None else []
+        elif t[0] == "return":
+            rd(0)
+        use[bb], dfn[bb], succ[bb] = u, d, [n for n in nxt if n is not None]
+    live = {bb: set(use[bb]) for bb in body.blocks}
+    changed = True
+    while changed:
+        changed = False
+        for bb in body.blocks:
+            out = set()
+            for n in succ[bb]:
+                out |= live.get(n, set())
+            new = use[bb] | (out - dfn[bb])
+            if new != live[bb]:
+                live[bb] = new
+                changed = True
+    body._live = live
+    return live
+
+
+def cfg_info(body):
+    """(join blocks, reverse-postorder index) of the non-cleanup CFG"""
+    if getattr(body, "_cfg", None) is not None:
+        return body._cfg
+    succ = {}
+    for bb, (stmts, t) in body.blocks.items():
+        nxt = []
+        if t[0] == "goto":
+            nxt = [t[1]]
+        elif t[0] == "switch":
+            nxt = [b for _, b in t[2]] + ([t[3]] if t[3] is not None else [])
+        elif t[0] == "assert":
+            nxt = [t[4]]
+        elif t[0] == "drop":
+            nxt = [t[2]]
+        elif t[0] == "call":
+            nxt = [t[4]] if t[4] is not None else []
+        succ[bb] = [n for n in nxt if n is not None and n not in body.cleanup]
+    preds = {}
+    for b, ns in succ.items():
+        for n in set(ns):
+            preds[n] = preds.get(n, 0) + 1
+    order, seen = [], set()
+    stack = [(0, iter(succ.get(0, [])))]
+    seen.add(0)
+    while stack:
+        b, it = stack[-1]
+        adv = False
+        for n in it:
+            if n not in seen:
+                seen.add(n)
+                stack.append((n, iter(succ.get(n, []))))
+                adv = True
+                break
+        if not adv:
+            order.append(b)
+            stack.pop()
+    rpo = {b: i for i, b in enumerate(reversed(order))}
+    joins = {b for b, k in preds.items() if k >= 2}
+    body._cfg = (joins, rpo)
+    return body._cfg
+
+
+def vrepr(v):
+    if isinstance(v, Ptr):
+        r = v.root
+        rr = (r[0], vrepr(r[1])) + tuple(r[2:]) if r[0] == "obj" else r
+        return f"P{rr}{[vrepr(x) if not isinstance(x, (int, str)) else x for x in v.path]}"
+    if isinstance(v, Agg):
+        return "A{" + ",".join(f"{k}:{vrepr(x)}" for k, x in sorted(v.f.items(), key=lambda kv: str(kv[0]))) + "}"
+    if isinstance(v, Enum):
+        return f"E[{v.name}]({vrepr(v.discr)}," + ",".join(f"{k}:{vrepr(x)}" for k, x in sorted(v.v.items())) + ")"
+    if isinstance(v, Closure):
+        return f"C[{v.span}]" + ",".join(f"{k}:{vrepr(x)}" for k, x in v.caps.items())
+    if isinstance(v, Native):
+        if isinstance(v.data, list):
+            return f"N[{v.kind}]" + ",".join(vrepr(x) for x in v.data)
+        return f"N[{v.kind}]{id(v.data)}"
+    if isinstance(v, tuple):
+        return "(" + ",".join(vrepr(x) for x in v) + ")"
+    if z3.is_expr(v):
+        return v.sexpr()
+    return repr(v)
+
+
+class MergeFail(Exception):
+    pass
+
+
+def merge_val(a, b, c):
+    """value that equals a when c holds and b otherwise"""
+    if a is b:
+        return a
+    if isinstance(a, bool) and isinstance(b, bool):
+        if a == b:
+            return a
+        a, b = z3.BoolVal(a), z3.BoolVal(b)
+    if isinstance(a, int) and isinstance(b, int) and not isinstance(a, bool):
+        if a == b:
+            return a
+        a, b = z3.IntVal(a), z3.IntVal(b)
+    if z3.is_expr(a) and z3.is_expr(b):
+        if a.sort() != b.sort():
+            raise MergeFail("sorts")
+        if a.eq(b):
+            return a
+        return z3.If(c, a, b)
+    if isinstance(a, Ptr) and isinstance(b, Ptr):
+        if a.root[0] != b.root[0] or len(a.path) != len(b.path):
+            raise MergeFail("ptr shape")
+        if a.root[0] == "obj":
+            ia = z3.IntVal(a.root[1]) if isinstance(a.root[1], int) else a.root[1]
+            ib = z3.IntVal(b.root[1]) if isinstance(b.root[1], int) else b.root[1]
+            root = ("obj", a.root[1] if ia.eq(ib) else z3.If(c, ia, ib))
+        elif a.root == b.root:
+            root = a.root
+        else:
+            raise MergeFail("ptr root")
+        path = []
+        for x, y in zip(a.path, b.path):
+            if isinstance(x, tuple) and isinstance(y, tuple) and x[0] == "idx" and y[0] == "idx":
+                path.append(("idx", merge_val(x[1], y[1], c)))
+            elif x == y:
+                path.append(x)
+            else:
+                raise MergeFail("ptr path")
+        return Ptr(root, tuple(path), a.meta if a.meta == b.meta else (a.meta or b.meta))
+    if isinstance(a, Agg) and isinstance(b, Agg):
+        out = {}
+        for k in set(a.f) | set(b.f):
+            if k in a.f and k in b.f:
+                out[k] = merge_val(a.f[k], b.f[k], c)
+            else:
+                out[k] = a.f.get(k, b.f.get(k))
+        return Agg(out)
+    if isinstance(a, Enum) and isinstance(b, Enum):
+        da = bv(a.discr) if isinstance(a.discr, int) else a.discr
+        db = bv(b.discr) if isinstance(b.discr, int) else b.discr
+        if da is None or db is None:
+            raise MergeFail("enum discr")
+        d = a.discr if (isinstance(a.discr, int) and isinstance(b.discr, int) and a.discr == b.discr) else merge_val(da, db, c)
+        vs = {}
+        for k in set(a.v) | set(b.v):
+            if k in a.v and k in b.v:
+                vs[k] = merge_val(a.v[k], b.v[k], c)
+            else:
+                vs[k] = a.v.get(k, b.v.get(k))
+        return Enum(d, vs, a.name or b.name)
+    if isinstance(a, Native) and isinstance(b, Native) and a.kind == b.kind:
+        if isinstance(a.data, list) and isinstance(b.data, list) and len(a.data) == len(b.data):
+            return Native(a.kind, [merge_val(x, y, c) for x, y in zip(a.data, b.data)])
+        if a.kind == "slice":
+            return Native("slice", (merge_val(a.data[0], b.data[0], c), merge_val(a.data[1], b.data[1], c)))
+        if a.data is b.data:
+            return a
+    if vrepr(a) == vrepr(b):
+        return a
+    raise MergeFail(f"{type(a).__name__} vs {type(b).__name__}")
+
+
+def merge_two(eng, x, y):
+    """merge context y into x (same control location). raises MergeFail"""
+    cx = z3.And(*x.pc) if x.pc else z3.BoolVal(True)
+    cy = z3.And(*y.pc) if y.pc else z3.BoolVal(True)
+    new_locals = []
+    for fx, fy in zip(x.frames, y.frames):
+        live = liveness(fx.body).get(fx.bb, set()) if fx is x.frames[-1] else None
+        out = {}
+        keys = set(fx.locals) | set(fy.locals)
+        for k in keys:
+            if live is not None and k not in live:
+                continue
+            if k in fx.locals and k in fy.locals:
+                out[k] = merge_val(fx.locals[k], fy.locals[k], cx)
+            else:
+                out[k] = fx.locals.get(k, fy.locals.get(k))
+        new_locals.append(out)
+    for fx, fy, loc in zip(x.frames, y.frames, new_locals):
+        fx.locals = loc
+        for k, v in fy.visits.items():
+            if v > fx.visits.get(k, 0):
+                fx.visits[k] = v
+    x.pc = [z3.simplify(z3.Or(cx, cy))]
+    seen = {e.id for e in x.last}
+    for e in y.last:
+        if e.id not in seen:
+            x.last.append(e)
+            seen.add(e.id)
+    oseen = {o[1].id for o in x.obs}
+    for o in y.obs:
+        if o[1].id not in oseen:
+            x.obs.append(o)
+            oseen.add(o[1].id)
+    return x
+
+
+def merge_ctxs(group):
+    """merge contexts whose live state is identical: the path condition becomes the disjunction, the next event gets
+    all their last events as program-order parents"""
+    if len(group) == 1:
+        return group[0]
+    c = group[0]
+    conds = [z3.And(*g.pc) if g.pc else z3.BoolVal(True) for g in group]
+    c.pc = [z3.simplify(z3.Or(*conds))]
+    lasts, seen = [], set()
+    obs, oseen = [], set()
+    for g in group:
+        for e in g.last:
+            if e.id not in seen:
+                seen.add(e.id)
+                lasts.append(e)
+        for o in g.obs:
+            if o[1].id not in oseen:
+                oseen.add(o[1].id)
+                obs.append(o)
+    c.last = lasts
+    c.obs = obs
+    return c
 
 
 class Fork:
